@@ -159,9 +159,9 @@ func (r Ref) NodeID() string {
 
 // Val is a value tree as written in a step input field or a workflow output.
 type Val struct {
-	K string `json:"k"` // lit | expr | map | list | oneof | ordisabled | waitopt | softopt
-	Lit  *Lit   `json:"lit,omitempty"`
-	Expr *Expr  `json:"expr,omitempty"`
+	K    string   `json:"k"` // lit | expr | map | list | oneof | ordisabled | waitopt | softopt
+	Lit  *Lit     `json:"lit,omitempty"`
+	Expr *Expr    `json:"expr,omitempty"`
 	Keys []string `json:"keys,omitempty"`
 	Vals []*Val   `json:"vals,omitempty"` // map values / list items / oneof option values (Keys = option ids)
 	Disc string   `json:"disc,omitempty"`
@@ -255,10 +255,10 @@ type Output struct {
 
 // Program is a workflow.
 type Program struct {
-	Version string     `json:"version,omitempty"`
-	Input   []InField  `json:"input"`
-	Steps   []*Step    `json:"steps"`
-	Outputs []*Output  `json:"outputs"`
+	Version string    `json:"version,omitempty"`
+	Input   []InField `json:"input"`
+	Steps   []*Step   `json:"steps"`
+	Outputs []*Output `json:"outputs"`
 	// LegacyOutput renders `output:` instead of `outputs:` (single output "success").
 	LegacyOutput bool `json:"legacy_output,omitempty"`
 	// OutputSchemaErr renders an explicit outputSchema with these error flags (C20).
@@ -277,17 +277,19 @@ func (p *Program) StepByID(id string) *Step {
 
 // Case is the replayable unit: everything a check needs to re-run one generated case.
 type Case struct {
-	Prop       string              `json:"prop"`
-	Profile    string              `json:"profile,omitempty"`
-	Main       *Program            `json:"main"`
-	Subs       map[string]*Program `json:"subs,omitempty"`
-	InputDoc   map[string]any      `json:"input_doc"`
-	Script     vplug.Script        `json:"script"`
-	Plan       vsched.Plan         `json:"plan,omitempty"`
-	Triggers   []vrun.Trigger      `json:"triggers,omitempty"`
-	WatchdogMs int                 `json:"watchdog_ms,omitempty"`
-	Labels     []string            `json:"labels,omitempty"`
-	Note       string              `json:"note,omitempty"`
+	Prop     string              `json:"prop"`
+	Profile  string              `json:"profile,omitempty"`
+	Main     *Program            `json:"main"`
+	Subs     map[string]*Program `json:"subs,omitempty"`
+	InputDoc map[string]any      `json:"input_doc"`
+	// PriorDocs are input documents run on the same prepared workflow before the observed run.
+	PriorDocs  []map[string]any `json:"prior_docs,omitempty"`
+	Script     vplug.Script     `json:"script"`
+	Plan       vsched.Plan      `json:"plan,omitempty"`
+	Triggers   []vrun.Trigger   `json:"triggers,omitempty"`
+	WatchdogMs int              `json:"watchdog_ms,omitempty"`
+	Labels     []string         `json:"labels,omitempty"`
+	Note       string           `json:"note,omitempty"`
 	// Extra carries property-specific data (corruption description, transformations...).
 	Extra map[string]any `json:"extra,omitempty"`
 }
@@ -309,15 +311,20 @@ func (c *Case) Request(kind string) *vrun.Request {
 	for name, p := range c.Subs {
 		files[name] = RenderYAML(p)
 	}
+	var prior []any
+	for _, d := range c.PriorDocs {
+		prior = append(prior, d)
+	}
 	return &vrun.Request{
-		Kind:       kind,
-		Main:       RenderYAML(c.Main),
-		Files:      files,
-		Input:      c.InputDoc,
-		Script:     c.Script,
-		Plan:       c.Plan,
-		Triggers:   c.Triggers,
-		WatchdogMs: c.WatchdogMs,
+		PriorInputs: prior,
+		Kind:        kind,
+		Main:        RenderYAML(c.Main),
+		Files:       files,
+		Input:       c.InputDoc,
+		Script:      c.Script,
+		Plan:        c.Plan,
+		Triggers:    c.Triggers,
+		WatchdogMs:  c.WatchdogMs,
 	}
 }
 
